@@ -52,6 +52,10 @@ def expected_model(c):
         return " ".join(x.split(":")[0] for x in go.split(" ")) + (" lin=skip" if "hang=BAD" in go else " lin=ok")
     if op == "trmeta":
         return go
+    if op == "batchrd":
+        if go.startswith(("CRASH", "HANG", "SETUP", "crash=")):
+            return "own=BAD acct=BAD serve=BAD"
+        return " ".join(x.split(":")[0].replace("=FOREIGN", "=BAD") for x in go.split(" "))
     if op == "trpage":
         return "pure=BAD" if go.startswith("ERR") else go.split(":")[0]
     if op in ("trlate", "trcut"):
@@ -68,7 +72,7 @@ def generate(ctx=None):
 
 
 
-MON_KEYS = dict(trcut=("cut", "deliv", "hang", "ids", "fail"), trsplit=("split",), trpage=("pure",),
+MON_KEYS = dict(batchrd=("own", "acct", "serve", "crash"), trcut=("cut", "deliv", "hang", "ids", "fail"), trsplit=("split",), trpage=("pure",),
                 muxcut=("cut", "hang", "post"), trmeta=("recover",))
 
 CUT_WHAT = {
@@ -80,6 +84,14 @@ CUT_WHAT = {
             "abandoning operation did not release (C06_conn_fatal_releases_lock)",
     "split": "one Transport call split into several exchanges delivered the answer of one exchange under the question of another (or lost / "
              "invented an answer): the results handed to the merger are not aligned with the sub-requests (C06_transport_split_aligned)",
+    "own": "a call on a kafka.Conn returned a value that is not the answer to its own request: bytes of a fetch response that a Batch left unread "
+           "(application-chosen message payload shaped like a response frame) were parsed as the next call's response",
+    "acct": "Batch.Close returned with the connection left open but NOT at the frame boundary: part of the fetch response is still unread "
+            "(C06_batch_close_at_boundary_or_closed)",
+    "serve": "after a Batch.Close that left the connection open another call on the Conn failed (or Close itself never returned): it read left-over "
+             "bytes of the fetch response instead of its own answer",
+    "crash": "the scenario's process died: fatal runtime error (sync: unlock of unlocked mutex — the read lock was released twice, "
+             "C06_batch_close_idempotent) or a panic",
     "post": "after a response was cut, a later operation on the same kafka.Conn did not fail, or still put a request on the wire",
     "recover": "the first metadata response of a fresh Transport was cut; afterwards Client.Metadata did not recover within 10 MetadataTTLs, or "
                "Writer.WriteMessages failed / did not deliver its record exactly once (C17: the Writer continues on a new connection)",
@@ -114,7 +126,7 @@ def judge_monitor_case(c, m, keys):
 
 def _monitor_family(ctx, flags, rule, extra_key):
     model = L.ocaml_build("c06")
-    base = dict(av=0, late=0, cut=0, split=0, page=0, muxcut=0, meta=0)
+    base = dict(av=0, late=0, cut=0, split=0, page=0, muxcut=0, meta=0, batchrd=0)
     base.update(flags)
     out, dt = run_harness(ctx, 0, 0, **base)
     cases = L.parse_cases(out)
@@ -161,7 +173,7 @@ def setup():
     L.ocaml_build("c06")
 
 
-def run_harness(ctx, n, big, av=4, seed=None, late=None, cut=None, split=None, page=None, muxcut=None, meta=None):
+def run_harness(ctx, n, big, av=4, seed=None, late=None, cut=None, split=None, page=None, muxcut=None, meta=None, batchrd=None):
     gobin = L.go_build("c06")
     rc, out, err, dt = L.sh([gobin, "-seed", str(seed if seed is not None else ctx.seed), "-n", str(n),
                              "-big", str(big), "-av", str(av), "-late", str(late if late is not None else ctx.scale(24, 300)),
@@ -169,7 +181,8 @@ def run_harness(ctx, n, big, av=4, seed=None, late=None, cut=None, split=None, p
                              "-split", str(split if split is not None else ctx.scale(40, 600)),
                              "-page", str(page if page is not None else ctx.scale(12, 200)),
                              "-muxcut", str(muxcut if muxcut is not None else ctx.scale(24, 400)),
-                             "-meta", str(meta if meta is not None else ctx.scale(10, 100))], timeout=1500)
+                             "-meta", str(meta if meta is not None else ctx.scale(10, 100)),
+                             "-batchrd", str(batchrd if batchrd is not None else ctx.scale(60, 1000))], timeout=1500)
     if rc != 0:
         raise L.Fail("correspondence", "harness cmd/c06 crashed", (out[-1500:] + err[-2500:]))
     return out, dt
@@ -220,7 +233,9 @@ def correspondence(ctx):
                                      what="bytes left over from an abandoned ApiVersions exchange were delivered to the next call as its response",
                                      detail=c["line"][:400] + " -> " + c["go"][:200], input=inp))
                 continue
-        if c["op"] in ("trcut", "trsplit", "trpage", "muxcut", "trmeta"):
+        if c["op"] == "batchrd" and c["go"].startswith(("CRASH", "HANG")):
+            c = dict(c, go="crash=BAD:" + c["go"][:100].replace(" ", "_") + " own=ok acct=ok serve=ok")
+        if c["op"] in ("trcut", "trsplit", "trpage", "muxcut", "trmeta", "batchrd"):
             if c["op"] == "trpage" and c["go"].startswith("ERR"):
                 c = dict(c, go="pure=BAD:" + c["go"])
             pf, cf = judge_monitor_case(c, m, MON_KEYS[c["op"]])
@@ -289,7 +304,7 @@ def correspondence(ctx):
                      "deadline, ctx cancel / deadline) checked by linearisation search against the extracted model (projection: order of requests "
                      "at the broker, order of complete answer frames per connection, outcome class per call); muxbig / trbig = 2-16 goroutines x "
                      "3-10 payload-tagged calls, predicate only (every returned value carries the caller's tag, every failure is an error); "
-                     "trlate = one Transport call whose context deadline expires mid-exchange, the broker answers LATE (released by the next request on that connection / timed), 1-3 followers of the same connection group (fc, lo, of) within the idle timeout; the whole wire journal (conn, correlation id per request and answer frame) and the call results go through the monitors extracted from Model/TransportPool.v (mon_delivery, mon_ids, mon_fail);  trsplit = one Transport call that is SPLIT into several exchanges (listoffsets with several (partition, timestamp) questions over a 2-4 broker cluster, listgroups over all brokers; some broker connections pre-warmed, per-answer and handshake delays) judged by mon_split: every question gets exactly the answer the broker produced for it;  muxcut = 2-3 concurrent operations on one kafka.Conn, the first answer cut at byte k (closed / silent): all return an error before the watchdog, nothing is written afterwards (mon_conn_cut + linearisation);  trmeta = first metadata response of a fresh Transport cut: Client.Metadata and a Writer recover (mon_recover);  trpage = 4-6 Client.Fetch calls on one Transport, record batches filled with the asking call's letter, call 0 closes the (nil / empty / non-empty) key and the value of each record it is done with while the other calls are served between its records (single P): no call reads a foreign byte (mon_pure);  trcut = the answer to one Transport call cut after k bytes (then closed / silent), 1-3 followers of the same connection group must each get their own answer on a fresh connection within their deadline (monitors mon_cut, mon_nohang, mon_delivery, mon_ids, mon_fail);  avopen / avstale = regression of the former ApiVersions defect (time-out inside the body must close; no left-over bytes delivered).  non-trivial = anything but a single undisturbed call",
+                     "trlate = one Transport call whose context deadline expires mid-exchange, the broker answers LATE (released by the next request on that connection / timed), 1-3 followers of the same connection group (fc, lo, of) within the idle timeout; the whole wire journal (conn, correlation id per request and answer frame) and the call results go through the monitors extracted from Model/TransportPool.v (mon_delivery, mon_ids, mon_fail);  trsplit = one Transport call that is SPLIT into several exchanges (listoffsets with several (partition, timestamp) questions over a 2-4 broker cluster, listgroups over all brokers; some broker connections pre-warmed, per-answer and handshake delays) judged by mon_split: every question gets exactly the answer the broker produced for it;  batchrd = one kafka.Conn, a fetch answer with several v1 / v2 batches (some gzip / snappy) whose values are copies of a forged ListOffsets frame for the next reader's correlation id; random Batch script (ReadMessage, Read with larger / equal / short buffer, a prefix of the messages), Close once or twice, hwm == offset, slow-drip past the read deadline, stop inside a compressed batch; 0-3 other tagged calls wait in waitResponse (answers held until Close returned and the byte accounting was taken) and one follows; each scenario in a child process (mon_batch_own / _acct / _serve);  muxcut = 2-3 concurrent operations on one kafka.Conn, the first answer cut at byte k (closed / silent): all return an error before the watchdog, nothing is written afterwards (mon_conn_cut + linearisation);  trmeta = first metadata response of a fresh Transport cut: Client.Metadata and a Writer recover (mon_recover);  trpage = 4-6 Client.Fetch calls on one Transport, record batches filled with the asking call's letter, call 0 closes the (nil / empty / non-empty) key and the value of each record it is done with while the other calls are served between its records (single P): no call reads a foreign byte (mon_pure);  trcut = the answer to one Transport call cut after k bytes (then closed / silent), 1-3 followers of the same connection group must each get their own answer on a fresh connection within their deadline (monitors mon_cut, mon_nohang, mon_delivery, mon_ids, mon_fail);  avopen / avstale = regression of the former ApiVersions defect (time-out inside the body must close; no left-over bytes delivered).  non-trivial = anything but a single undisturbed call",
                 samples=[c["line"][:260] + " | " + c["go"][:100] for c in cases[:2] + cases[len(cases)//3:len(cases)//3+2]
                          + cases[2*len(cases)//3:2*len(cases)//3+2] + cases[-2:]],
                 extra=dict(per_op=per_op, tagged_calls_ok=ok_calls, tagged_calls_err=err_calls,
